@@ -140,6 +140,12 @@ pub trait Prop: Sync {
     fn profiles(&self, _tier: Tier) -> Vec<&'static str> {
         vec!["release"]
     }
+    /// Whether observations may be compared across worker processes (false
+    /// for checks whose observations depend on the worker's own `Db`
+    /// instance: the statement of C14 is not theirs to decide).
+    fn cross_process_determinism(&self) -> bool {
+        true
+    }
     /// Per-case wall budget in seconds (a case exceeding it is a hang).
     fn case_budget_s(&self) -> u64 {
         20
@@ -419,7 +425,7 @@ pub fn run_worker(prop: &dyn Prop, args: WorkerArgs) -> WorkerReport {
         let owner = h % nsh;
         let stride = (h / nsh) % 97 == 0;
         let mine = owner == me;
-        let cross = stride && owner == next && nsh > 1;
+        let cross = stride && owner == next && nsh > 1 && prop.cross_process_determinism();
         if !mine && !cross {
             return;
         }
